@@ -23,6 +23,7 @@ from harness.core import PropertyCheck, TieBroken
 from harness.util import Snapshot, errname, fr, frs, parse_rats, pmat
 from harness.props import c05_results as RS
 from harness.props import c05_more as MR
+from harness.props import c05_w3 as W3
 
 LAMBDA = 1e-7          # 1 / FFF_GLM_KALMAN_INIT_VAR
 KEY_KALMAN_S2 = "kalman-s2-uncorrected"
@@ -348,7 +349,8 @@ def RS_drop_last(op, p):
 class C05(PropertyCheck):
     id = "C05"
     title = "Linear-model fits are least-squares optimal and implementation-independent"
-    lean_modules = ["NipyVerif.Props.C05", "NipyVerif.Props.C05B", "NipyVerif.Props.C05C", "NipyVerif.Props.C05T"]
+    lean_modules = ["NipyVerif.Props.C05", "NipyVerif.Props.C05B", "NipyVerif.Props.C05C", "NipyVerif.Props.C05T",
+                    "NipyVerif.Props.C05E", "NipyVerif.Props.C05F", "NipyVerif.Props.C05G", "NipyVerif.Props.C05H"]
     driver = "Drivers/C05.lean"
     rule = ("cases are tuples from a seeded PRNG, of ten kinds: models (design, data block, covariance structure, "
             "contrast, reparametrisation, voxel selection); engines (the separate GLM implementations on one problem); "
@@ -363,7 +365,19 @@ class C05(PropertyCheck):
             "matrices); refuse (malformed calls, abstract base classes).  Dyadic designs of full column rank (integer, "
             "with intercept, dyadic, nearly collinear, polynomial drift), n 3..40 quick / ..200 thorough, p 1..n-1; "
             "non-trivial = p >= 2 or at least 2 voxels or a non-identity covariance structure or any results / ar / "
-            "labs3 / fmri / matrices case; distinct by full JSON of the case")
+            "labs3 / fmri / matrices case; distinct by full JSON of the case.  Wave 3 adds eight kinds: hist (operation "
+            "histories on ONE model object: several fits with different blocks / dtypes / layouts / 1-D data, accessors of "
+            "earlier results observed between and after later fits, ARModel.iterative_fit and assignment of rho between "
+            "fits), yw2 (yule_walker: every method spelling, df None / 0 / n / other, inv flags, orders 0..n+1, the series "
+            "as list / tuple / int / float32 / strided / reversed / read-only, magnitudes 2^-20..2^20 and negative "
+            "factors), gls (GLSModel with positive definite, diagonal 2^-20..2^20, ill-conditioned, indefinite and "
+            "semi-definite sigma in several dtypes / layouts), estim (isestimable on designs of every exact rank, dummy "
+            "coding, columns in different units, 1-D / 2-D / malformed contrasts), bias2 (ar_bias_correct through results, "
+            "residual arrays incl. N-d, results carrying a scale, AREstimator reused for several fits, whitened "
+            "calc_beta, orders 0..3), bins (fMRI GLM getters for prescribed layouts of the AR(1) bins - same / distinct / "
+            "interleaved / blocks / outlier - with every form of column_index incl. tuples, refits on the same object), "
+            "labsnd (labs glm on 3-D blocks for every axis, grid shapes incl. singleton axes, t / F / tmin contrasts, "
+            "both engines, three layouts) and rkf (the refined Kalman filter re-compiled from the tree, niter 1..4)")
     assumptions = [
         "numpy.linalg.pinv returns (a rounding of) the Moore-Penrose inverse: the model's (X'X)^-1 X' with a certified "
         "exact inverse *is* that inverse (theorems pinv_is_moore_penrose, pinv_unique); checked to a "
@@ -385,22 +399,40 @@ class C05(PropertyCheck):
         "(on nearly collinear designs, smallest singular value^2 ~ 1e-4, this is a visible 0.1% in b and several "
         "% in s2 - inherent to the diffuse prior 1e7, not flagged); BLAS dsymv reads one triangle of the "
         "covariance, the model the full matrix, symmetric by kalman_cov_symmetric",
-        "the refined Kalman filter (labs model='ar1', fff_glm_RKF_*) is an approximate pseudo-likelihood "
-        "scheme with no exact counterpart: only its refusal guards, shapes (every axis), degrees of freedom and "
-        "voxelwise behaviour are checked by the oracle (modelled-not-verified)",
+        "the refined Kalman filter (labs model='ar1', fff_glm_RKF_*) is modelled as the C recursion is written "
+        "(exact rationals; FFF_TINY / FFF_ENSURE_POSITIVE regenerated from fff_base.h; dsymv / dsyr2 / dsymm read one "
+        "triangle, the model the symmetric matrix) and compared with fff_glm_RKF_fit re-compiled from the tree to "
+        "20x the Kalman tolerance (the refined covariance relative to the filter's own covariance: it is a difference "
+        "of terms of that size when |a| is near 1); it is an approximate pseudo-likelihood scheme, so no optimality "
+        "is claimed beyond rkf_kfilt / rkf_first_sweep / rkf_fixed_point; the compiled wrapper kalman.ar1 (stale .so) "
+        "is only compared with the re-compiled C",
+        "GLSModel: npl.cholesky(npl.pinv(sigma)) is external numerics; the model decides acceptance exactly (certified "
+        "congruence E S E' = diag > 0, or a checked vector with z'Sz <= 0) and the fit is written with the exact inverse "
+        "(glsExact; gls_any_root: any root of the inverse gives it).  NumPy refuses positive definite sigma with "
+        "condition number above ~1e8 (pinv is then not numerically positive definite) and may accept or refuse "
+        "semi-definite ones: both outcomes are accepted there, fits are compared for condition numbers up to 1e6 with "
+        "tolerance 1e-13 cond(sigma)^2 cond(wX)",
+        "results.logL / AIC / BIC are evaluated lazily through results.model: after ARModel.iterative_fit or an "
+        "assignment of rho they use the object's NEW coefficients with the OLD theta (observed; outside the property "
+        "as stated): excluded for results fitted before a change of rho, compared otherwise",
+        "caller arrays held by reference (OLSModel.whiten returns its argument; results.Y, model.design): in-place "
+        "edits by the caller after the call are not presented",
         "AR(1) bin labels of GeneralLinearModel: voxels whose exact ar1*steps lies within 1e-7 of an integer "
         "are not compared (float truncation may legally pick either bin)",
         "yule_walker / ar_bias_correct / iterative_fit: scipy.linalg solve / inv / toeplitz are modelled by a certified "
         "exact inverse; cases whose Toeplitz matrix has condition number above 1e7, a zero denominator or diverging "
         "iterates are generated but not compared (tagged)",
         "negative axis values of labs.glm.glm are outside the documented range (the ols engine raises, the compiled "
-        "kalman wrapper indexes a list with them): not generated; N-d blocks are modelled for N = 2, 3",
+        "kalman wrapper indexes a list with them): not generated; N-d blocks are modelled for N = 2, 3; the F statistic "
+        "of labs contrasts goes through the compiled mahalanobis routine (numeric comparison with the model's exact "
+        "e' V^-1 e / q); the variance of a one-row contrast is compared as a flat list (its shape was the squeezed "
+        "grid before fix 16259cd, the effect's grid since)",
         "rank-deficient designs are outside the property's quantifier: the model refuses them (rank_deficient_refused), "
         "the implementation goes on with pinv; the oracle only checks what stays meaningful there (df_model = rank, "
         "fitted values = those of full_rank(design), residuals orthogonal to the design) and records that "
         "dispersion uses n - p, not n - rank",
     ]
-    level_text = ("proof: 77 Lean theorems over all inputs of an exact rational model of OLS/WLS/AR(p)/GLS fits, the whole "
+    level_text = ("proof: 115 Lean theorems over all inputs of an exact rational model of OLS/WLS/AR(p)/GLS fits, the whole "
                   "results API on multi-response fits (t, vcov, Tcontrast, Fcontrast, conf_int, score, sums of squares, "
                   "logL), pos_recipr/recipr0, certified rank, AR(p) filter, yule_walker, ar_bias_correct, labs ols "
                   "(every axis), the fMRI GLM (ols, per-bin AR(1) refit and its scatter, contrasts) and the C Kalman "
@@ -415,11 +447,24 @@ class C05(PropertyCheck):
                   "injectivity for every order, Yule-Walker equations and shift invariance, bias-corrected AR estimates "
                   "voxelwise and scale invariant, agreement of the Python-level implementations on every shared "
                   "observable, every axis of the labs engines fibre-wise, the scatter of per-bin AR(1) results "
-                  "(glm_ar1_scatter, formerly partial), Kalman recursion = regularised batch least squares (ridge 1e-7). "
+                  "(glm_ar1_scatter, formerly partial), Kalman recursion = regularised batch least squares (ridge 1e-7); "
+                  "wave 3: histories on one ARModel object (results never altered by later steps, a fit is the fit of a "
+                  "fresh object with the current rho, iterative_fit calls compose: iterFit_append / hist_*), yule_walker "
+                  "df default, ar_bias_correct with / without scale and dependence on the hat matrix only, GLS "
+                  "acceptance (accepted => positive definite, refused => a vector with z'Sz < 0) and independence of the "
+                  "square root of the inverse covariance (gls_any_root), isestimable <=> the contrast vanishes on the "
+                  "design's null space (isestimable_iff, Mathlib rank-nullity), labs N-d bookkeeping (voxel (i,j) <-> "
+                  "flat column i*B+j is a bijection, grid fit = flat fit for every axis position and both engines, the "
+                  "resize/.T/reshape variance pipeline = M[y,x] s2[i,j]), refined Kalman filter (embedded filter = "
+                  "ordinary Kalman filter, first sweep = ordinary Kalman fit, zero autocorrelation is a fixed point of "
+                  "the refinement for every niter). "
                   "Hypotheses / oracle-only: numpy pinv returns the Moore-Penrose inverse, matrix_rank agrees with the "
-                  "exact rank on exact inputs, sqrt / Student quantile / log (parameters), the refined Kalman filter "
-                  "(labs model='ar1'), FMRILinearModel's image handling (oracle against GeneralLinearModel), labs "
-                  "save/load, rank-deficient designs (outside the domain)")
+                  "exact rank on exact inputs, sqrt / Student quantile / log (parameters), cholesky(pinv(sigma)) of "
+                  "GLSModel (acceptance compared, numerics external), the refined Kalman filter beyond its first sweep / "
+                  "fixed point (no optimality statement exists for the approximate scheme; recursion tied by "
+                  "correspondence), the compiled mahalanobis routine behind labs F statistics, FMRILinearModel's image "
+                  "handling (oracle against GeneralLinearModel), labs save/load, rank-deficient designs (outside the "
+                  "domain)")
     finding_keys = {KEY_KALMAN_S2: "labs.glm kalman engine returns s2 = ssd/n while the ols engine "
                                    "returns ssd/(n-p)"}
 
@@ -454,6 +499,45 @@ class C05(PropertyCheck):
         ("nipy/labs/glm/glm.py", "ols", "s2"): "(res ** 2).sum(axis) / float(n - X.shape[1])",
         ("nipy/labs/glm/glm.py", "ols", "dof"): "float(X.shape[0] - X.shape[1])",
         ("nipy/labs/glm/glm.py", "ols", "nvbeta"): "np.inner(pX, pX)",
+        # wave 3 (a value may be a tuple: every listed right-hand side must be among the assignments)
+        ("nipy/algorithms/statistics/models/regression.py", "yule_walker", "n"): "df or X.shape[0]",
+        ("nipy/algorithms/statistics/models/regression.py", "yule_walker", "X"):
+            ("np.asarray(X, np.float64)", "X - X.mean(0)"),
+        ("nipy/algorithms/statistics/models/regression.py", "yule_walker", "r[0]"): "(X ** 2).sum() / den(0)",
+        ("nipy/algorithms/statistics/models/regression.py", "yule_walker", "r[k]"): "(X[0:-k] * X[k:]).sum() / den(k)",
+        ("nipy/algorithms/statistics/models/regression.py", "yule_walker", "R"): "spl.toeplitz(r[:-1])",
+        ("nipy/algorithms/statistics/models/regression.py", "yule_walker", "rho"): "spl.solve(R, r[1:])",
+        ("nipy/algorithms/statistics/models/regression.py", "yule_walker", "sigmasq"): "r[0] - (r[1:] * rho).sum()",
+        ("nipy/algorithms/statistics/models/regression.py", "ar_bias_correct", "sum_sq"):
+            ("results.scale.reshape(resid.shape[1:]) * results.df_resid", "np.sum(resid ** 2, axis=0)"),
+        ("nipy/algorithms/statistics/models/regression.py", "ar_bias_correct", "cov[i]"):
+            "np.sum(resid[i:] * resid[0:-i], axis=0)",
+        ("nipy/algorithms/statistics/models/regression.py", "ar_bias_correct", "cov"):
+            ("np.zeros((order + 1,) + sum_sq.shape)", "np.dot(invM, cov)"),
+        ("nipy/algorithms/statistics/models/regression.py", "ar_bias_correct", "output"): "cov[1:] * pos_recipr(cov[0])",
+        ("nipy/algorithms/statistics/models/regression.py", "ar_bias_corrector", "R"):
+            "np.eye(design.shape[0]) - np.dot(design, calc_beta)",
+        ("nipy/algorithms/statistics/models/regression.py", "ar_bias_corrector", "M[i, j]"):
+            "np.diag(np.dot(Di, Dj) / (1.0 + (i > 0))).sum()",
+        ("nipy/algorithms/statistics/models/regression.py", "isestimable", "new"): "np.vstack([C, D])",
+        ("nipy/algorithms/statistics/models/regression.py", "isestimable", "return"): "matrix_rank(new) == matrix_rank(D)",
+        ("nipy/algorithms/statistics/models/regression.py", "GLSModel.__init__", "self.cholsigmainv"):
+            "npl.cholesky(npl.pinv(sigma)).T",
+        ("nipy/algorithms/statistics/models/regression.py", "GLSModel.whiten", "return"): "np.dot(self.cholsigmainv, Y)",
+        ("nipy/algorithms/statistics/models/regression.py", "ARModel.iterative_fit", "(self.rho, _)"):
+            "yule_walker(Y - results.predicted, order=self.order, df=self.df_resid)",
+        ("nipy/labs/glm/glm.py", "glm.contrast", "B"): "np.rollaxis(self.beta, axis, ndims)",
+        ("nipy/labs/glm/glm.py", "glm.contrast", "con"): "np.inner(c, B)",
+        ("nipy/labs/glm/glm.py", "glm.contrast", "vcon"):
+            ("np.inner(c, np.inner(c, nvbeta))", "(vcon.squeeze() * s2).reshape(B.shape[:-1])",
+             "np.dot(c, np.inner(nvbeta, c))", "np.resize(vcon, s2.shape + aux)",
+             "vcon.T.reshape(aux + (s2.size,)) * s2.reshape((s2.size,))", "vcon.reshape(aux + con.shape[1:])"),
+        ("nipy/modalities/fmri/glm.py", "GeneralLinearModel.get_beta", "column_index"):
+            ("np.arange(self.X.shape[1])", "[int(column_index)]", "list(column_index)"),
+        ("nipy/modalities/fmri/glm.py", "GeneralLinearModel.get_beta", "beta[:, self.labels_ == l]"):
+            "self.results_[l].theta[column_index]",
+        ("nipy/modalities/fmri/glm.py", "GeneralLinearModel.get_mse", "mse[self.labels_ == l]"): "self.results_[l].MSE",
+        ("nipy/modalities/fmri/glm.py", "GeneralLinearModel.get_logL", "logL[self.labels_ == l]"): "self.results_[l].logL",
     }
 
     def translators(self):
@@ -483,8 +567,9 @@ class C05(PropertyCheck):
                     got.append(ast.unparse(node.value))
                 elif isinstance(node, ast.Assign) and any(ast.unparse(t) == target for t in node.targets):
                     got.append(ast.unparse(node.value))
-            if want not in got:
-                raise TieBroken(f"{rel}: {dotted}: `{target}` is {got!r}, the model encodes {want!r}")
+            for w1 in (want if isinstance(want, tuple) else (want,)):
+                if w1 not in got:
+                    raise TieBroken(f"{rel}: {dotted}: `{target}` is {got!r}, the model encodes {w1!r}")
         # tables
         lg = trees.setdefault("nipy/labs/glm/glm.py", parse("nipy/labs/glm/glm.py"))
         models = None
@@ -529,6 +614,14 @@ class C05(PropertyCheck):
             raise TieBroken("FFF_GLM_KALMAN_INIT_VAR not found")
         from fractions import Fraction
         iv = Fraction(mm.group(1))
+        try:
+            hb = open(os.path.join(REPO, "lib/fff/fff_base.h")).read()
+        except Exception as e:
+            raise TieBroken(f"lib/fff/fff_base.h unreadable: {e}")
+        mt = re.search(r"#define\s+FFF_TINY\s+([0-9.eE+-]+)", hb)
+        if not mt or not re.search(r"#define\s+FFF_ENSURE_POSITIVE\(a\)\s*\(\s*\(a\)\s*>\s*FFF_TINY\s*\?\s*\(a\)\s*:\s*FFF_TINY\s*\)", hb):
+            raise TieBroken("FFF_TINY / FFF_ENSURE_POSITIVE not found in the form the model encodes")
+        tiny = Fraction(mt.group(1))
 
         def sl(xs):
             return "[" + ", ".join('"' + x.replace('"', "") + '"' for x in xs) + "]"
@@ -541,6 +634,7 @@ class C05(PropertyCheck):
                    f"def fmriModels : List String := {sl(fm)}\n"
                    f"def tconStore : List String := {sl(store)}\n"
                    f"def kfInitVar : Rat := {rat}\n"
+                   f"def fffTiny : Rat := ({tiny.numerator} : Rat) / {tiny.denominator}\n"
                    "end NipyVerif.C05.Gen\n")
         return [("NipyVerif/Gen/C05Tables.lean", content)]
 
@@ -730,6 +824,10 @@ class C05(PropertyCheck):
             cases.append(MR.gen_labs3(rng, H, tier))
         for _ in range(nf):
             cases.append(MR.gen_fmri(rng, H, tier))
+        # -- wave 3: histories on one model object, options, N-d contrasts, refined Kalman filter ----
+        for gen, (nq, nt) in W3.GENERATORS:
+            for _ in range(nq if tier == "quick" else nt):
+                cases.append(gen(rng, H, tier))
         return cases
 
     # ------------------------------------------------------------------
@@ -1019,8 +1117,11 @@ class C05(PropertyCheck):
                         tol = (10 * rk) if nm == "kalman" else rt_o
                         chk(f"labs glm ({nm}) {ty} contrast effect on a 3-D block differs from the 2-D fit", e3, e2, tol,
                             bs * float(np.abs(Cm_).sum()))
+                        # (absolute floor = natural size of a contrast variance, c cov c' * s2: on a block of
+                        # numerically perfect fits every variance is rounding noise)
                         chk(f"labs glm ({nm}) {ty} contrast variance on a 3-D block differs from the 2-D fit "
-                            f"(voxels mixed up?)", v3, v2, tol, max(1e-300, float(np.abs(v2).max())))
+                            f"(voxels mixed up?)", v3, v2, tol,
+                            max(float(np.abs(v2).max()), covs * float(np.abs(Cm_).sum()) ** 2 * ys * ys))
             tags.append("3-D")
         # Kalman engine: ridge with lambda = 1e-7 (theorem kalman_is_ridge) => |b - b_ols| <= lambda |G| |b_ols|
         G = np.linalg.inv(X.T @ X)
@@ -1154,6 +1255,39 @@ class C05(PropertyCheck):
         import sys
         return MR.run_fmri(sys.modules[__name__], case)
 
+    # -- wave 3 (harness/props/c05_w3.py) ------------------------------------------
+    def _hist(self, case):
+        import sys
+        return W3.run_hist(sys.modules[__name__], case)
+
+    def _yw2(self, case):
+        import sys
+        return W3.run_yw(sys.modules[__name__], case)
+
+    def _gls(self, case):
+        import sys
+        return W3.run_gls(sys.modules[__name__], case)
+
+    def _estim(self, case):
+        import sys
+        return W3.run_estim(sys.modules[__name__], case)
+
+    def _bias2(self, case):
+        import sys
+        return W3.run_bias(sys.modules[__name__], case)
+
+    def _bins(self, case):
+        import sys
+        return W3.run_bins(sys.modules[__name__], case)
+
+    def _labsnd(self, case):
+        import sys
+        return W3.run_labsnd(sys.modules[__name__], case)
+
+    def _rkf(self, case):
+        import sys
+        return W3.run_rkf(sys.modules[__name__], case)
+
     # -- refusals ---------------------------------------------------------------
     def _refuse(self, case):
         from nipy.algorithms.statistics.models import regression as reg
@@ -1211,6 +1345,8 @@ class C05(PropertyCheck):
             return RS.compare_results(case, obs, meta, model_out)
         if kind in ("arw", "yw", "arbias", "iterfit", "labs3", "glmcon", "scaling"):
             return MR.compare_more(kind, case, obs, meta, model_out)
+        if kind in W3.KINDS:
+            return W3.compare_w3(kind, case, obs, meta, model_out)
         if kind == "recip":
             secs = model_out.split(" | ")
             if len(secs) != 2:
